@@ -2036,3 +2036,76 @@ func ruleP18(r *Run) {
 		r.Undec(key, fd.Pos(), "no re-invocation of Cluster.Handler found")
 	}
 }
+
+// ---------------------------------------------------------------------------------------------------
+// P19 no registration after the sweep
+
+func init() {
+	register("P19", "in every multiplexing client transport the pending table refuses a call once the connection is being closed: conn.Close records the reason in a field under the table's lock BEFORE it sweeps the table, conn.store reads that field under the same lock and returns it instead of inserting, and conn.Transport returns that error - otherwise a call that fetched the pooled connection just before it died registers after the sweep and is never told (it returns only at its time-out, or never when it has none)", 3, ruleP19)
+}
+
+func ruleP19(r *Run) {
+	p := r.P
+	for _, tr := range []string{"rpc/socket", "rpc/udp", "rpc/websocket"} {
+		key := "no registration after the sweep in " + tr
+		sfd, pkg := p.DeclOf(tr, "conn.store")
+		cfd, _ := p.DeclOf(tr, "conn.Close")
+		tfd, _ := p.DeclOf(tr, "conn.Transport")
+		if sfd == nil || cfd == nil || tfd == nil {
+			r.Undec(key, 0, "conn.store / conn.Close / conn.Transport not found")
+			continue
+		}
+		info := pkg.TypesInfo
+		// the flag: a field of conn that Close assigns and store reads
+		assigned := map[*types.Var]token.Pos{}
+		var sweepPos token.Pos
+		ast.Inspect(cfd.Body, func(m ast.Node) bool {
+			switch x := m.(type) {
+			case *ast.AssignStmt:
+				for _, l := range x.Lhs {
+					if fv := fieldOf(info, l); fv != nil {
+						if _, seen := assigned[fv]; !seen {
+							assigned[fv] = x.Pos()
+						}
+					}
+				}
+			case *ast.CallExpr:
+				if refName(methodName(x)) == "rangeAndClean" && sweepPos == 0 {
+					sweepPos = x.Pos()
+				}
+			}
+			return true
+		})
+		var flag *types.Var
+		ast.Inspect(sfd.Body, func(m ast.Node) bool {
+			if fv := fieldOf(info, exprOrNil(m)); fv != nil {
+				if _, ok := assigned[fv]; ok {
+					flag = fv
+				}
+			}
+			return true
+		})
+		returnsErr := sfd.Type.Results != nil && len(sfd.Type.Results.List) == 1 && isErrorType(info.TypeOf(sfd.Type.Results.List[0].Type))
+		// Transport uses the result of store
+		used := false
+		tparents := parentMap(tfd.Body)
+		ast.Inspect(tfd.Body, func(m ast.Node) bool {
+			if c, ok := m.(*ast.CallExpr); ok && refName(methodName(c)) == "store" {
+				if _, isStmt := tparents[c].(*ast.ExprStmt); !isStmt {
+					used = true
+				}
+			}
+			return true
+		})
+		switch {
+		case flag == nil:
+			r.Viol(key, sfd.Pos(), "conn.store inserts into the pending table whatever the state of the connection: no field that conn.Close sets is consulted, so a call that registers after Close has swept the table waits for a response that cannot come - until its time-out, or for ever without one (the goroutine and the table entry leak)")
+		case !returnsErr || !used:
+			r.Viol(key, sfd.Pos(), "conn.store knows that the connection is closed (field "+flag.Name()+") but does not report it, or conn.Transport ignores the report: the call still waits for a response that cannot come")
+		case sweepPos != 0 && assigned[flag] > sweepPos:
+			r.Viol(key, cfd.Pos(), "conn.Close sets "+flag.Name()+" only after it has swept the table: a call can still register in between and is never told")
+		default:
+			r.Ok(key, sfd.Pos(), "Close sets "+flag.Name()+" before the sweep; store returns it; Transport returns that error")
+		}
+	}
+}
